@@ -1,2 +1,78 @@
-(* C02 — statements (under construction) *)
+(* C02 — parsed responses do not depend on how the byte stream is split into reads.  Statements only. *)
 From MPD Require Import Bytes Tables ParserModel BuilderModel ConnModel ParserProofs ConnProofs.
+Open Scope N_scope.
+
+(* One receive call, any buffer policy that always offers room (blocking: valid < cap, with the
+   doubling; async: unbounded), any segmentation: its outcome is the reference outcome on the
+   whole remaining stream, and after a response the unread stream is exactly the reference's rest. *)
+Theorem c02_receive_is_reference : forall fuel p st buf r,
+  wf_reader r -> pol_ok p (length buf) -> (reader_bytes r < fuel)%nat ->
+  match recv_loop fuel p st buf r with
+  | (o, c', r') =>
+    o = fst (ref_from st (stream buf r) (rtail r)) /\
+    (forall resp, o = Resp resp ->
+       stream (c_buf c') r' = snd (ref_from st (stream buf r) (rtail r)) /\
+       wf_reader r' /\ rtail r' = rtail r /\ pol_ok (c_policy c') (length (c_buf c')) /\
+       (length (stream (c_buf c') r') < length (stream buf r))%nat)
+  end.
+Proof. exact recv_loop_ref. Qed.
+
+(* The sequence of outcomes of repeated receive calls is the segmentation-free reference run. *)
+Theorem c02_run_is_reference : forall fuel c r,
+  wf_reader r -> pol_ok (c_policy c) (length (c_buf c)) ->
+  run fuel 0 c r = ref_run fuel (stream (c_buf c) r) (rtail r).
+Proof. exact run_ref. Qed.
+
+(* Corollaries in the property's own words. *)
+Theorem c02_same_bytes_same_outcomes : forall fuel p1 p2 r1 r2,
+  wf_reader r1 -> wf_reader r2 -> pol_ok p1 0 -> pol_ok p2 0 ->
+  concat (chunks r1) = concat (chunks r2) -> rtail r1 = rtail r2 ->
+  run fuel 0 (mkConn p1 []) r1 = run fuel 0 (mkConn p2 []) r2.
+Proof.
+  intros fuel p1 p2 r1 r2 W1 W2 P1 P2 E T.
+  rewrite (run_ref fuel (mkConn p1 []) r1 W1 P1), (run_ref fuel (mkConn p2 []) r2 W2 P2).
+  unfold stream. simpl. rewrite E, T. reflexivity.
+Qed.
+
+Theorem c02_blocking_equals_async : forall fuel cap r,
+  wf_reader r -> (1 <= cap)%nat ->
+  run fuel 0 (mkConn (Blocking cap) []) r = run fuel 0 (mkConn Async []) r.
+Proof.
+  intros fuel cap r W C. apply c02_same_bytes_same_outcomes; simpl; auto.
+Qed.
+
+(* the reference run is complete: with fuel above the stream length it ends in a terminal outcome *)
+Theorem c02_reference_run_ends : forall fuel all t,
+  (length all < fuel)%nat -> exists rs o, ref_run fuel all t = map Resp rs ++ [o] /\ (forall x, o <> Resp x).
+Proof. exact ref_run_terminal. Qed.
+
+(* connect: same statement; the bytes after the greeting stay available (repair of D1) *)
+Theorem c02_connect_is_reference : forall p r,
+  wf_reader r -> pol_ok p 0 ->
+  let '(o, r') := connect p r in
+  conn_matches o r' (ref_connect (concat (chunks r)) (rtail r)) (rtail r).
+Proof. exact connect_ref. Qed.
+
+(* the streaming grammar is prefix-stable: the fact everything above rests on *)
+Theorem c02_parser_prefix_stable : good parse_component /\ good p_greeting.
+Proof. exact (conj good_parse_component good_greeting). Qed.
+
+(* non-vacuity: one stream, three segmentations, a 7-byte blocking buffer that must double *)
+Example c02_ex :
+  let s := b "foo: bar" ++ [LF] ++ b "binary: 3" ++ [LF] ++ b "abc" ++ [LF] ++ b "OK" ++ [LF] ++ b "x" in
+  let r1 := mkReader [s] TEof in
+  let r2 := mkReader (map (fun c => [c]) s) TEof in
+  let r3 := mkReader [firstn 10 s; skipn 10 s] TEof in
+  wf_reader r2 /\
+  run 50 0 (mkConn (Blocking 7) []) r1 = run 50 0 (mkConn Async []) r2 /\
+  run 50 0 (mkConn (Blocking 1) []) r3 = run 50 0 (mkConn Async []) r2 /\
+  length (run 50 0 (mkConn Async []) r2) = 2%nat.
+Proof. split; [vm_compute; repeat constructor; discriminate | repeat split; vm_compute; reflexivity]. Qed.
+
+Print Assumptions c02_receive_is_reference.
+Print Assumptions c02_run_is_reference.
+Print Assumptions c02_same_bytes_same_outcomes.
+Print Assumptions c02_blocking_equals_async.
+Print Assumptions c02_reference_run_ends.
+Print Assumptions c02_connect_is_reference.
+Print Assumptions c02_parser_prefix_stable.
